@@ -12,6 +12,7 @@ tvars == <<l, viol, hist, bank, disp, dust, lvars>>
 Range(s) == { s[i] : i \in DOMAIN s }
 RateV == N(146940000)
 MsPerDayV == N(86400000)
+NsPerMsV == Pow10(6)
 Init == /\ l = 1 /\ viol = {} /\ hist = 0 /\ bank = <<>> /\ disp = <<>> /\ dust = Zero
         /\ supply = Zero /\ minit = FALSE /\ hasprev = FALSE /\ prev = Zero /\ tbr = Zero /\ lnow = Zero /\ ivals = <<>>
 
@@ -42,7 +43,7 @@ Check(e) ==
   (IF e.ev = "BeginBlock" THEN
        (IF e.ok THEN
           LET burn == BurnOf(disp, e.post.dispute.disputes) IN
-          (IF LBegin(e.dt, burn) THEN {} ELSE {"MintAndBurnExact"})
+          (IF LBegin(e.dtn, burn) THEN {} ELSE {"MintAndBurnExact"})
        ELSE {})
    ELSE IF ~e.ok THEN (IF b = bank THEN {} ELSE {"RejectedMessageLeavesBankUntouched"})
    ELSE IF e.ev = "EndBlock" THEN (IF LPayout(b.bal.tbr) THEN {} ELSE {"EndBlockKeepsSupply"})
@@ -65,9 +66,9 @@ Step ==
   /\ LET e == Trace[l]
          b == e.post.bank
          reset == e.hist # hist
-         t == IF e.ev = "BeginBlock" THEN e.t ELSE IF reset THEN e.t ELSE lnow
+         t == IF e.ev = "BeginBlock" THEN e.tn ELSE IF reset THEN e.tn ELSE lnow
      IN /\ hist' = e.hist
-        /\ supply' = b.supply /\ minit' = b.minter.init /\ hasprev' = b.minter.hasprev /\ prev' = b.minter.prev
+        /\ supply' = b.supply /\ minit' = b.minter.init /\ hasprev' = b.minter.hasprev /\ prev' = b.minter.prevn
         /\ tbr' = b.bal.tbr /\ lnow' = t
         /\ bank' = b /\ disp' = e.post.dispute.disputes /\ dust' = e.post.dispute.dust
         /\ ivals' = IF reset THEN << [t0 |-> t, minted |-> Zero] >>
